@@ -188,3 +188,13 @@ Theorem C17_remapping_total :
     to_rows_tmp ueqb nodes = Ok tmp -> exists rows, to_rows ueqb numbered nodes = Ok rows.
 Proof. exact remap_total. Qed.
 Print Assumptions C17_remapping_total.
+
+Example C17_errors_are_crashes_nonvacuous :
+  to_rows N.eqb false dangling_flow = Err ECrash /\ to_rows_tmp N.eqb dangling_flow = Err ECrash.
+Proof. exact dangling_flow_crashes. Qed.
+Print Assumptions C17_errors_are_crashes_nonvacuous.
+
+Example C17_remapping_total_nonvacuous :
+  exists tmp, to_rows_tmp N.eqb loops_flow = Ok tmp /\ length tmp = 6%nat.
+Proof. exact loops_flow_tmp. Qed.
+Print Assumptions C17_remapping_total_nonvacuous.
